@@ -11,6 +11,8 @@ CONSTANTS
   BurnVeto = FALSE
   BurnPrevote = FALSE
   BurnQuorum = FALSE
+  ParamKeys = {"sendDefault", "send", "tax", "burnVeto", "burnPrevote", "burnQuorum", "minDep", "erc20"}
+  MaxParamChanges = 1
   Seeded = FALSE
   Defects = {}
 INVARIANT MInv_P
